@@ -140,10 +140,44 @@ func c15(tier string, args []string) int {
 	nu := func() interface{} { return &c15user{ev: evaluator.NewEvaluator(), cfg: cfg.name} }
 	// single goroutine per process: the evaluator's scratch score is a package-level variable
 	saved := vl.SetWorkers(1)
+	c15Material(run, cfg.name, sub, nsub)
 	runFamilies(run, fams, nu, c15State)
 	if len(mySeeds) > 0 {
 		runTree(run, mySeeds, depth, nu, c15State)
 	}
 	vl.SetWorkers(saved)
 	return run.FinishWorker()
+}
+
+// c15Material: the dead-material clause over every material signature of the C10 sweep (<=3 minor pieces by square
+// colour and <=1 Q, R, P per side, 4 placements each): wherever the engine classifies the position as insufficient
+// material the evaluation is exactly 0 - from both sides' view, on the placement and on its colour mirror.
+func c15Material(run *vl.Run, cfgName string, sub, nsub int) {
+	mats := allSideMats()
+	ev := evaluator.NewEvaluator()
+	for wi, w := range mats {
+		if wi%nsub != sub {
+			continue
+		}
+		for _, b := range mats {
+			for layout := 0; layout < 4; layout++ {
+				r := placeMaterial(w, b, layout)
+				for _, q := range []*refchess.Pos{r, r.Mirror()} {
+					p, err := position.NewPositionFen(q.FEN())
+					if err != nil || !q.Valid() {
+						continue
+					}
+					run.AddStates(1)
+					if !p.HasInsufficientMaterial() {
+						continue
+					}
+					run.Count("insufficient_material_signature_positions", 1)
+					if v := ev.Evaluate(p); v != ValueDraw {
+						run.Violate("insufficient-nonzero", fmt.Sprintf("insufficient material (%s v %s) but value %d", w.String(), b.String(), v),
+							map[string]interface{}{"kind": "material", "fen": q.FEN(), "config": cfgName})
+					}
+				}
+			}
+		}
+	}
 }
